@@ -861,7 +861,7 @@ def build_backbone(rng, links, *, chains=1, icn="?", ocn="?", absent_occ=None, h
     chain_ids = rng.sample(["A", "B", "R", "2"], chains)
     lnum = 0
     for c, ch in enumerate(chain_ids):
-        origin = _add(rng.choice(_ORIGINS[:3]), (0, c * 23000, c * 5000))
+        origin = _add(rng.choice(_ORIGINS), (0, c * 23000, c * 5000))   # (also coordinates that fill their PDB columns)
         num = rng.choice([-2, 1, 7, 98])
         ic = ""
         pos = origin
